@@ -810,4 +810,11 @@ TIER_HARNESSES = {"quick": ["H13-decimal", "H13-currency"] + _NEW + [f"H13-sci-n
                   "thorough": ["H13-decimal", "H13-currency"] + _NEW + [f"H13-sci-n{n}-e{e}" for n, e in SCI_T] +
                               [f"H13-decimal-num-n{n}-e{e}" for n, e in DECNUM_T] + [f"H13-percent-n{n}-e{e}" for n, e in PCT_T] +
                               ["H13-dispatch", "H13-reformat"]}
+# set_cell_formatting files every new format in the table's format list (model.format_archive -> DataLists): a key handed out
+# for a new entry must be fresh whatever order the stored list is in - the lookup-list harness is shared with C06
+from specs import c06 as _c06   # noqa: E402
+
+HARNESSES += [h for h in _c06.HARNESSES if h.name == "H06a"]
+for _t in TIER_HARNESSES.values():
+    _t.append("H06a")
 PROPERTY = "C13"
